@@ -3,7 +3,8 @@
    correspondence run. Part of the checker, not of the theorems. *)
 From Cache Require Import Base Failover.
 
-Inductive fstatus := SDone | SWaiting | SRead | SWrite | SBEntry | SBExit | SLog (n : N) | SStat (m : metric).
+Inductive fstatus := SDone | SWaiting | SRead | SWrite | SBEntry | SBExit | SLog (n : N) | SStat (m : metric)
+                   | SPost.   (* parked right after a backend call-out returned: any pc *)
 #[global] Instance fstatus_eq_dec : EqDecision fstatus.
 Proof. solve_decision. Defined.
 
@@ -27,7 +28,9 @@ Definition status_of (p : pc) : option fstatus :=
 
 Inductive mlabel :=
 | MSpawn (t : tid) (k : key) (skip : bool) (cell : option dur) (now : time) (evs : list fev) (sts : list (tid * fstatus))
-| MRun (t : tid) (o : orc) (evs : list fev) (sts : list (tid * fstatus)).
+| MRun (t : tid) (o : orc) (evs : list fev) (sts : list (tid * fstatus))
+| MRun1 (t : tid) (o : orc) (evs : list fev) (sts : list (tid * fstatus))   (* exactly one step: the call-out *)
+| MCont (t : tid) (o : orc) (evs : list fev) (sts : list (tid * fstatus)).  (* from right after a call-out to the next parking point *)
 
 (* run the internal steps of thread t until it parks *)
 Fixpoint run_internal (fuel : nat) (c : fcfg) (s : fstate) (t : tid) (o : orc) : option fstate :=
@@ -75,6 +78,12 @@ Definition macro (c : fcfg) (s : fstate) (l : mlabel) : option fstate :=
           end
       | None => None
       end
+  | MRun1 t o _ _ => fstep_x c s (LStep t o)
+  | MCont t o _ _ =>
+      match run_internal 40 c s t o with
+      | Some s2 => Some (wake_all c s2 o)
+      | None => None
+      end
   end.
 
 (* projection of the ghost log to what the harness observes *)
@@ -89,14 +98,14 @@ Definition observable (e : fev) : option fev :=
 Proof. solve_decision. Defined.
 
 Definition label_obs (l : mlabel) : list fev * list (tid * fstatus) :=
-  match l with MSpawn _ _ _ _ _ e s | MRun _ _ e s => (e, s) end.
+  match l with MSpawn _ _ _ _ _ e s | MRun _ _ e s | MRun1 _ _ e s | MCont _ _ e s => (e, s) end.
 
 Definition label_now (l : mlabel) : time :=
-  match l with MSpawn _ _ _ _ n _ _ => n | MRun _ o _ _ => o_now o end.
+  match l with MSpawn _ _ _ _ n _ _ => n | MRun _ o _ _ | MRun1 _ o _ _ | MCont _ o _ _ => o_now o end.
 
 Definition statuses_ok (s : fstate) (sts : list (tid * fstatus)) : bool :=
   forallb (fun ts => match threads s !! ts.1 with
-                     | Some th => bool_decide (status_of (t_pc th) = Some ts.2)
+                     | Some th => bool_decide (ts.2 = SPost) || bool_decide (status_of (t_pc th) = Some ts.2)
                      | None => false
                      end) sts &&
   forallb (fun tt => bool_decide (tt.1 ∈ map fst sts) || bool_decide (t_pc tt.2 = PDone)) (map_to_list (threads s)).
